@@ -1,3 +1,58 @@
 import LibconfigModel.Read
+import LibconfigModel.Grammar
+import LibconfigModel.Proofs.C02
+/-
+  C02 — parsing accepts exactly the documented grammar (soundness direction, proved for the
+  compiled tables): whenever `libconfig_yyparse` accepts, the token kinds it consumed form a
+  sentence of the documented grammar.  Statements only; helper definitions and lemmas live in
+  LibconfigModel/Proofs/C02.lean.
+-/
 namespace Libconfig.C02
+open Grammar
+
+/-- `LexesTo E s toks s'`: calling `yylex` repeatedly from scan state `s` returns the tokens
+`toks` (token number and value) and then end of input, ending in state `s'` -/
+inductive LexesTo (E : ParserEnv) : ScanState → List (Nat × TokVal) → ScanState → Prop where
+  | eof (s s' : ScanState) : yylex E.T E.sacts E.w E.ic E.lexFuel s = (s', .eof) → LexesTo E s [] s'
+  | tok (s s₁ s' : ScanState) (t : Nat) (v : TokVal) (rest : List (Nat × TokVal)) :
+      yylex E.T E.sacts E.w E.ic E.lexFuel s = (s₁, .tok t v) → LexesTo E s₁ rest s' →
+      LexesTo E s ((t, v) :: rest) s'
+  /-- an include error is handed to the parser as the token TOK_ERROR (which no rule of the
+  grammar contains, so a derivable sequence never has one) -/
+  | incl (s s₁ s' : ScanState) (t : Nat) (text : Bytes) (file : Option Bytes) (line : Nat)
+      (rest : List (Nat × TokVal)) :
+      yylex E.T E.sacts E.w E.ic E.lexFuel s = (s₁, .includeError t text file line) → LexesTo E s₁ rest s' →
+      LexesTo E s ((t, {}) :: rest) s'
+
+/-- The hand-written grammar agrees with the compiled tables on every rule's left-hand side
+and length (the right-hand sides are validated by the automaton check inside the proof). -/
+theorem C02_rules_match :
+    ∀ r, 1 ≤ r → r ≤ Generated.parser.nrules →
+      (Generated.parser.r1.get r).toNat = (rules.getD r (0, [])).1 ∧
+      (Generated.parser.r2.get r).toNat = (rules.getD r (0, [])).2.length := by
+  intro r h1 h2
+  have h := C02P.allBelow_spec C02P.rulesMatch_ok r (Nat.lt_succ_of_le h2)
+  simp only [Bool.or_eq_true, Bool.and_eq_true] at h
+  rcases h with h | h
+  · have := Nat.eq_of_beq_eq_true h
+    omega
+  · exact ⟨Nat.eq_of_beq_eq_true h.1, Nat.eq_of_beq_eq_true h.2⟩
+
+/-- Soundness of the compiled parser: if `yyparse` (over the translated tables, with the real
+scanner model and the real semantic actions) accepts, then the input lexes to a token sequence
+whose kinds (`YYTRANSLATE`) are derivable from the documented grammar. -/
+theorem C02_sound (w : World) (c : Config) (fuel : Nat) (s₀ s' : ScanState) (ctx₀ ctx' : ParseCtx)
+    (h : yyparse (theEnv w c fuel) fuel s₀ ctx₀ = (s', ctx', .accept)) :
+    ∃ toks, LexesTo (theEnv w c fuel) s₀ toks s' ∧
+      Derivable (toks.map fun tv => translateTok Generated.parser tv.1) := by
+  have hok : C02P.staticOK (theEnv w c fuel).P C02P.edges = true := C02P.edges_ok
+  obtain ⟨toks, hlex, hder⟩ :=
+    C02P.yyparse_sound hok (C02P.tokNZ_theEnv w c fuel) fuel s₀ s' ctx₀ ctx' h
+  refine ⟨toks, ?_, hder⟩
+  clear h hder
+  induction hlex with
+  | eof s s' hy => exact .eof s s' hy
+  | tok s s₁ s' t v rest hy _ ih => exact .tok s s₁ s' t v rest hy ih
+  | incl s s₁ s' t text file line rest hy _ ih => exact .incl s s₁ s' t text file line rest hy ih
+
 end Libconfig.C02
